@@ -1,9 +1,46 @@
-(** Property C09 — every solve call terminates (recursive engine: within the overflow depth). *)
-From Chalk Require Import Engine.RecEngine Engine.RecWitness.
+(** Property C09 — every solve call terminates without hanging or panicking (recursive engine:
+    within its overflow depth).  Engine part, on the faithful model Engine/RecEngine.v. *)
+From Chalk Require Import Engine.RecFuel.
+
+(** The only panics of a root solve of the repaired engine are injected ones (C12) and the
+    overflow guard the property allows: no stack / search-graph assertion, no index out of
+    bounds, no failed [move_to_cache] assertion -- from any state with an exact cache (in
+    particular after any history, interrupted or panicking), for every and-or graph without
+    mixed cycles and every fuel. *)
+Theorem rec_only_guard_panics : forall G cf fuel g s p s',
+  wf G -> ~ mixed_cycle G -> vr cf = repaired -> g < length G -> cache_exact G s ->
+  solve_root G cf fuel g s = Panic p s' -> p = Injected \/ p = OverflowDepth.
+Proof.
+  intros G cf fuel g s p s' Hwf Hnm Hvr Hg Hc Hrun.
+  pose proof (root_spec G cf Hwf Hnm Hvr fuel g s Hc Hg) as H. rewrite Hrun in H. apply H.
+Qed.
+
+(** Fuel is only a cut-off: once a root solve has an outcome, every larger fuel gives the
+    same outcome (for every graph and configuration, unchanged or repaired engine). *)
+Theorem rec_fuel_mono : forall G cf f f' g s,
+  f <= f' -> solve_root G cf f g s <> OutOfFuel -> solve_root G cf f' g s = solve_root G cf f g s.
+Proof. exact rec_fuel_mono_lemma. Qed.
+
+(** PARTIAL.  The full statement is [RecFuel.rec_fuel_bound_statement]: the explicit fuel
+    [fuel_bound G cf = 4 * (min overflow |G| + 1) + 1] always suffices.  What is proved: the
+    outcome at any sufficient fuel is the outcome at every larger fuel, and it is not an
+    internal panic.  The gap: that the fixed-point loop of a node makes at most three
+    iterations per visit (monotonicity of the propositional [solve_iteration] in the
+    provisional value); the C09 check validates [fuel_bound] on every generated instance
+    (the model run with exactly this fuel must equal the real engine's observations). *)
+Theorem rec_fuel_bound_partial : forall G cf f g s,
+  wf G -> ~ mixed_cycle G -> vr cf = repaired -> g < length G -> cache_exact G s ->
+  solve_root G cf f g s <> OutOfFuel ->
+  (forall f', f <= f' -> solve_root G cf f' g s = solve_root G cf f g s) /\
+  (forall p s', solve_root G cf f g s = Panic p s' -> p = Injected \/ p = OverflowDepth).
+Proof.
+  intros G cf f g s Hwf Hnm Hvr Hg Hc Hne. split.
+  - intros f' Hle. apply rec_fuel_mono_lemma; auto.
+  - intros p s' Hrun. pose proof (root_spec G cf Hwf Hnm Hvr f g s Hc Hg) as H. rewrite Hrun in H. apply H.
+Qed.
 
 (** The guard of the property is modelled: a search deeper than [overflow_depth] ends in the
-    explicit outcome [Panic OverflowDepth] (never in a hang), here on a chain of length 3 with
-    overflow depth 2. *)
+    explicit outcome [Panic OverflowDepth] (never in a hang). *)
 Theorem rec_overflow_guard :
-  fst (run chain3 (mk_config repaired 2 true [] []) 100 [0] init_state) = [OPanic OverflowDepth].
+  fst (run RecWitness.chain3 (mk_config repaired 2 true [] []) 100 [0] init_state) = [OPanic OverflowDepth].
 Proof. vm_compute. reflexivity. Qed.
